@@ -14,6 +14,7 @@ import (
 	"verif/props/c09"
 	"verif/props/c10"
 	"verif/props/c11"
+	"verif/props/c12"
 	"verif/props/c13"
 	"verif/props/c18"
 )
@@ -32,6 +33,7 @@ func Registry() map[string]func() *mon.Spec {
 		"C09": c09.Spec,
 		"C10": c10.Spec,
 		"C11": c11.Spec,
+		"C12": c12.Spec,
 		"C13": c13.Spec,
 		"C18": c18.Spec,
 	}
